@@ -13,62 +13,11 @@
 import AgeModel.GoSem
 import AgeModel.Format
 import AgeModel.Extracted.Funcs
-import Proofs.GoTieMisc
+import Proofs.GoTieFmtStr
+import Proofs.GoTieLines
 namespace AgeModel
 namespace GoTie
 open Extracted
-
-def toGoFStanza (s : Format.Stanza) : format_Stanza := ⟨s.type, s.args, s.body⟩
-
-/-- what is assumed of `format.DecodeString` -/
-def DecodeIsModel (D : Bytes → Go.M (Bytes × Option Go.Err)) (eD : Go.Err) : Prop :=
-  ∀ a, D a = .ok (match Format.decodeString a with
-                   | some b => (b, none)
-                   | none => ([], some eD))
-
-/-! ### helper lemmas -/
-
-theorem cutAfter_takeLine : ∀ rd : Bytes,
-    Go.cutAfter 10 rd = (Format.takeLine rd).map (fun p => (p.1 ++ [10], p.2))
-  | [] => rfl
-  | c :: cs => by
-    have ih := cutAfter_takeLine cs
-    by_cases hc : c = 10
-    · subst hc; rfl
-    · simp only [Go.cutAfter, Format.takeLine, Format.nl, hc, if_false, ih]
-      cases Format.takeLine cs with
-      | none => rfl
-      | some p => rfl
-
-theorem readBytes_some (rd l rest : Bytes) (h : Format.takeLine rd = some (l, rest)) :
-    Go.bufio_ReadBytes rd 10 = (l ++ [Format.nl], none, rest) := by
-  simp only [Go.bufio_ReadBytes, cutAfter_takeLine, h, Option.map]; rfl
-
-theorem readBytes_none (rd : Bytes) (h : Format.takeLine rd = none) :
-    Go.bufio_ReadBytes rd 10 = (rd, Go.ioEOF, []) := by
-  simp only [Go.bufio_ReadBytes, cutAfter_takeLine, h, Option.map]
-
-theorem takeLine_length : ∀ (rd l rest : Bytes), Format.takeLine rd = some (l, rest) → rest.length < rd.length
-  | [], _, _, h => by simp [Format.takeLine] at h
-  | c :: cs, l, rest, h => by
-    by_cases hc : c = Format.nl
-    · simp only [Format.takeLine, hc, if_true, Option.some.injEq, Prod.mk.injEq] at h
-      rw [← h.2, List.length_cons]; omega
-    · simp only [Format.takeLine, hc, if_false] at h
-      cases h' : Format.takeLine cs with
-      | none => rw [h'] at h; cases h
-      | some p =>
-        obtain ⟨l', r'⟩ := p
-        rw [h'] at h
-        simp only [Option.some.injEq, Prod.mk.injEq] at h
-        have := takeLine_length cs l' r' h'
-        rw [← h.2, List.length_cons]; omega
-
-theorem trimSuffix_nl (l : Bytes) : Go.strings_TrimSuffix (l ++ [Format.nl]) [10] = l := by
-  have : ([10] : List UInt8).isSuffixOf (l ++ [Format.nl]) = true := by
-    simp [Format.nl]
-  simp only [Go.strings_TrimSuffix, this, if_true, List.length_append, List.length_cons,
-    List.length_nil, Nat.add_sub_cancel, List.take_left']
 
 theorem loop1_eq (line : Bytes) : ∀ (args : List Bytes) (r : format_StanzaReader) (s : format_Stanza) (err : Option Go.Err),
     format_StanzaReader_ReadStanza_loop1 line args r s err =
@@ -84,12 +33,6 @@ theorem loop1_eq (line : Bytes) : ∀ (args : List Bytes) (r : format_StanzaRead
       exact loop1_eq line rest r s err
     · have hv' := Bool.eq_false_iff.mpr hv
       simp only [hv', Bool.not_false, if_true, Bool.false_and, Bool.false_eq_true, if_false]; rfl
-
-theorem some_bne_none (e : Go.Err) : ((some e : Option Go.Err) != none) = true := by
-  simp
-
-theorem none_bne_none : ((none : Option Go.Err) != none) = false := by
-  simp
 
 theorem loop2_eq (D : Bytes → Go.M (Bytes × Option Go.Err)) (eD : Go.Err) (hD : DecodeIsModel D eD) :
     ∀ (fuel : Nat) (r : format_StanzaReader) (s : format_Stanza) (err : Option Go.Err),
